@@ -35,6 +35,7 @@ def run(tier, replay=None):
         streams = [
             ("proj", "cases_proj.txt", "N * env * nat * list proj_item", "proj_mismatches"),
             ("exch", "cases_exch.txt", "N * env * list exch", "exch_mismatches"),
+            ("ctor", "cases_ctor.txt", "N * env * list ctor_item", "ctor_mismatches"),
         ]
         for name, fn, typ, fun in streams:
             lines = _lines(ck, fn)
@@ -56,10 +57,11 @@ def run(tier, replay=None):
     else:
         total = sum(len(v) for v in mism.values())
         if total and not ck.violations:
-            name = "proj" if mism.get("proj") else "exch"
+            name = "proj" if mism.get("proj") else ("exch" if mism.get("exch") else "ctor")
             first = index[name][mism[name][0]] if mism[name][0] < len(index[name]) else None
             what = {"proj": "correspondence Views.iproject (memo model of expr.Project) vs expr.Project",
-                    "exch": "correspondence Views.server_respond / client_decode vs the generated server and client"}[name]
+                    "exch": "correspondence Views.server_wire / client_decode vs the generated server and client",
+                    "ctor": "correspondence Views.ctor_plan vs the generated view constructors new<T>View<V> / new<T><V>"}[name]
             ck.unproved("%s broke on %d case(s) (%d projection pool(s), %d exchange batch(es)); the property's own laws held on every case explored"
                         % (what, total, len(mism.get("proj", [])), len(mism.get("exch", []))),
                         {"broken": what, "first_disagreeing_case": first,
@@ -67,7 +69,7 @@ def run(tier, replay=None):
     cov = {"evaluations": res["evaluations"], "distinct_nontrivial": res["distinct_nontrivial"], "rule": res["rule"],
            "samples": res["samples"], "distribution": res["distribution"], "extra": res.get("extra", {}),
            "model_mismatches": sum(len(v) for v in mism.values()) if ck.coq_ok else None,
-           "coq_cases": {k: len(_lines(ck, "cases_%s.txt" % k)) for k in ("proj", "exch")},
+           "coq_cases": {k: len(_lines(ck, "cases_%s.txt" % k)) for k in ("proj", "exch", "ctor")},
            "exhaustive": False}
     return ck.finish(cov, assumptions=[
         "model Views/Model.v is hand-written from expr/result_type.go (Project, the seen memo), dsl/result_type.go (View/buildView), codegen/service (projected types, new<T>View<V>, new<T><V>, Validate<T>View<V>, NewViewed<T>/New<T>) and the HTTP response encoder/decoder templates; tied by evaluating iproject/unfold, server_respond and client_decode inside Coq on every case the real code ran",
